@@ -773,7 +773,7 @@ Lemma srel_do_media xs h c sid s to mk stream media :
 Proof.
   intros Hs. unfold do_media. destruct to as [i|u| |]; try apply srel_refl.
   destruct (N.eqb mk 0).
-  - destruct (negb (offer_allowed (s_perms s) stream media)); [apply srel_refl|].
+  - destruct (negb (offer_allowed (s_perms s) stream _)); [apply srel_refl|].
     destruct (aget (s_pubs s) stream); [|apply srel_start_create].
     eapply srel_trans; [|apply srel_send_session]. apply stab_srel. apply stab_put with s; auto.
   - destruct (N.eqb mk 1).
